@@ -35,9 +35,10 @@ type memStore struct {
 	puts     int
 	crashAt  int  // n-th Put (1-based) panics; 0 = never
 	crashAft bool // panic after applying
+	crashed  chan crashSignal
 }
 
-func newMemStore() *memStore { return &memStore{data: map[string][]byte{}} }
+func newMemStore() *memStore { return &memStore{data: map[string][]byte{}, crashed: make(chan crashSignal, 4)} }
 
 func (s *memStore) Get(ctx context.Context, key string, withPrefix bool) ([]api.MetaMsg, error) {
 	s.mu.Lock()
@@ -70,14 +71,21 @@ func (s *memStore) Put(ctx context.Context, key string, value api.MetaMsg) error
 	crash := s.crashAt != 0 && s.puts == s.crashAt
 	if crash && !s.crashAft {
 		s.mu.Unlock()
-		panic(crashSignal{})
+		s.die()
 	}
 	s.data[key] = b
 	s.mu.Unlock()
 	if crash {
-		panic(crashSignal{})
+		s.die()
 	}
 	return nil
+}
+
+// die models the process dying at this point of the update: the calling goroutine never runs another instruction
+// of the code under test (no return, no deferred function), the harness is told and abandons the instance.
+func (s *memStore) die() {
+	s.crashed <- crashSignal{}
+	select {}
 }
 
 func (s *memStore) Remove(ctx context.Context, key string) error {
@@ -275,21 +283,29 @@ func runC17(tier string) *vf.Run {
 		}
 		report := func(i int, shard string) (ready bool, err error, crashed bool) {
 			m := c.Msgs[i]
-			defer func() {
-				if r := recover(); r != nil {
-					if _, ok := r.(crashSignal); !ok {
-						panic(r)
-					}
-					crashed = true
-				}
-			}()
 			base := api.BaseTaskMsg{TaskID: m.Task, MsgID: m.ID, TargetChannels: append([]string{}, m.Target...), ReadyChannels: []string{shard}}
-			if m.Part {
-				ready, err = impl.UpdateTaskDropPartitionMsg(ctx, api.TaskDropPartitionMsg{Base: base, DatabaseName: "db", CollectionName: "c", PartitionName: "p", DropTS: 1000})
-			} else {
-				ready, err = impl.UpdateTaskDropCollectionMsg(ctx, api.TaskDropCollectionMsg{Base: base, DatabaseName: "db", CollectionName: "c", DropTS: 1000})
+			cur := impl
+			type out struct {
+				ready bool
+				err   error
 			}
-			return
+			done := make(chan out, 1)
+			// on its own goroutine: a planned crash parks it inside the store call for good (see memStore.die)
+			go func() {
+				var o out
+				if m.Part {
+					o.ready, o.err = cur.UpdateTaskDropPartitionMsg(ctx, api.TaskDropPartitionMsg{Base: base, DatabaseName: "db", CollectionName: "c", PartitionName: "p", DropTS: 1000})
+				} else {
+					o.ready, o.err = cur.UpdateTaskDropCollectionMsg(ctx, api.TaskDropCollectionMsg{Base: base, DatabaseName: "db", CollectionName: "c", DropTS: 1000})
+				}
+				done <- o
+			}()
+			select {
+			case o := <-done:
+				return o.ready, o.err, false
+			case <-store.crashed:
+				return false, nil, true
+			}
 		}
 		applyRef := func(i int, shard string) {
 			if !ref[i].present {
